@@ -683,3 +683,104 @@ def gen_empty(L, K, rng):
             g.op_clear(s)
             g.op_emplace(s)
     return g.finish(), g.stats
+
+
+# ---------------------------------------------------------------- comparisons (C13, C14)
+def mutate_tuple(g, L, tup, fixed, rng):
+    """a tuple related to `tup`: equal, differing in one object, or with a VaryingSize field
+    that is a strict prefix / extension of the original (count field kept consistent)"""
+    t = [[list(o) for o in f] for f in tup]
+    r = rng.random()
+    if r < 0.35:
+        return t
+    k = rng.randrange(len(L))
+    p = L[k]
+    if p.kind == VARYING and r < 0.7:
+        f = t[k]
+        if f and rng.random() < 0.5:
+            f.pop()
+        elif len(f) + 1 < 256 ** min(L[k - 1].size, 8):
+            f.append(g.rand_obj(p))
+        t[k - 1] = [le(len(f), L[k - 1].size)]
+        return t
+    if p.kind == PLAIN and k + 1 < len(L) and L[k + 1].kind == VARYING:
+        k += 1          # do not edit a count field on its own
+        p = L[k]
+    if t[k]:
+        j = rng.randrange(len(t[k]))
+        o = t[k][j]
+        b = rng.randrange(len(o))
+        o[b] = (o[b] + rng.choice([1, 1, 2, 255, 128])) % 256
+    return t
+
+
+def gen_compare(L, K, rng):
+    """two or three vectors with related contents (equal / one field differs / strict prefix /
+    empty / different fixed sizes), built under different junk fills, capacities and
+    allocators; then every operator on every pair of vectors and on pairs of elements"""
+    g = ScriptGen(L, K, rng, domain=rng.choice([2, 3]))
+    nf = nfixed(L)
+    fixed0 = [rng.choice([0, 1, 2, 2, 3]) for _ in range(nf)]
+    nv = rng.choice([2, 2, 3])
+    base = []
+    for s in range(nv):
+        g.lines.append("junk %d" % rng.choice([0, 85, 170, 255, 1, 2, 3]))
+        fixed = list(fixed0)
+        if s and nf and rng.random() < 0.2:
+            fixed[rng.randrange(nf)] = rng.choice([0, 1, 2, 3, 4])
+            g.stat("cmp-different-fixed-sizes")
+        how = rng.choice(["same", "same", "mutated", "prefix", "longer", "empty", "fresh"]) if s else "fresh"
+        g.stat("cmp-operand-" + how)
+        n = rng.choice([1, 2, 3, 4])
+        if how == "empty":
+            tuples = []
+        elif how == "fresh" or fixed != fixed0 or not base:
+            tuples = [g.rand_tuple(fixed, 3) for _ in range(n)]
+        else:
+            tuples = [[[list(o) for o in f] for f in t] for t in base]
+            if how == "mutated" and tuples:
+                i = rng.randrange(len(tuples))
+                tuples[i] = mutate_tuple(g, L, tuples[i], fixed, rng)
+            elif how == "prefix" and tuples:
+                tuples = tuples[:rng.randrange(len(tuples))]
+            elif how == "longer":
+                tuples = tuples + [g.rand_tuple(fixed, 3)]
+        if s == 0:
+            base = tuples
+        cap = len(tuples) + rng.choice([0, 0, 1, 3])
+        pay = sum(sum(len(f) * p.size for f, p in zip(t, L) if p.kind == VARYING) for t in tuples)
+        # budget generous enough for the layout to fit whatever the order of sizes
+        g.op_mkvec(s, cap=cap, budget=(pay + rng.choice([0, 0, 8, 40])) if has_varying(L) else 0, fixed=fixed, aid=rng.choice([1, 2]))
+        v = g.slots[s]
+        # leave stale bytes behind: emplace and remove something first
+        if rng.random() < 0.3 and cap > 0:
+            if g.op_emplace(s):
+                rng.choice([g.op_popback, g.op_clear])(s)
+        for t in tuples:
+            if v.fits(t, True):
+                v.elems.append(t)
+                g.lines.append(g.emplace_line(s, t))
+                g.stat("emplace")
+        if rng.random() < 0.15 and v.elems and not v.erase_overlaps(0, 1):
+            del v.elems[0]
+            g.lines.append("erase %d 0" % s)
+    if rng.random() < 0.1:
+        g.lines.append("default 3")
+        d = SpecVec(L, 0, 0, [0] * nf, 0, K)
+        d.null = True
+        d.block = 0
+        g.slots[3] = d
+    live = [s for s in range(4) if g.slots[s] is not None]
+    for a in live:
+        for b in live:
+            g.lines.append("cmpvec %d %d" % (a, b))
+            g.stat("cmpvec")
+    pairs = [(a, i, b, j) for a in live for b in live for i in range(len(g.slots[a].elems)) for j in range(len(g.slots[b].elems))]
+    rng.shuffle(pairs)
+    # the pairs a lexicographical comparison of two vectors looks at come first
+    aligned = [q for q in pairs if q[1] == q[3] and q[0] != q[2]]
+    pairs = aligned + [q for q in pairs if q not in set(aligned)][:16]
+    for a, i, b, j in pairs:
+        g.lines.append("cmpref %d %d %d %d" % (a, i, b, j))
+        g.stat("cmpref")
+    return g.finish(), g.stats
